@@ -108,12 +108,14 @@ def gen_ops(rng, tier):
     # depth is the number of symbols - every depth up to the 32 that the limiting step can take (table must be valid), and 33..40 where
     # the function has to leave through JERR_HUFF_CLEN_OVERFLOW (the total stays below 10^9)
     for k in list(range(14, 41)):
-        a, b, pairs = 1, 2, []
+        a, b = rng.choice([(1, 2), (2, 3), (1, 3), (1, 2)])
+        pairs = []
         syms = rng.sample(range(256), k)
         for s_ in syms:
-            pairs.append((s_, a + (rng.randint(0, 1) if a > 8 and rng.random() < .3 else 0))); a, b = b, a + b
+            pairs.append((s_, a)); a, b = b, a + b
         rng.shuffle(pairs)
-        ops.append(hist(pairs))
+        if sum(c for _, c in pairs) < 10 ** 9:
+            ops.append(hist(pairs))
     # tie-break sensitive: many equal small counts with a few larger
     for k in (2, 3, 4, 5, 8, 16, 32, 64, 128, 200, 254, 256):
         ops.append(hist([(s, 1) for s in range(k)]))
